@@ -113,7 +113,8 @@ def run(ctx):
     pool = build_pool(ctx, n)
     ck = [proto.to_ckl(v) for v in pool]
     ctx.rule = ("all ordered pairs and sampled triples from a pool of generated data values (depth<=3, ints beyond 2^53, "
-                "decimals by value and bit pattern, equal-but-distinct twins 1/1.0, shuffled insertion orders); "
+                "decimals by value and bit pattern, equal-but-distinct twins 1/1.0, shuffled insertion orders); equal pairs and unequal pairs (random, and numbers "
+                "that differ only in the last place or beyond 2^53) through ==, !=, is, equals, in, find, map lookup, set de-duplication as programs; "
                 "non-trivial = the pair/triple is not made of syntactically identical values")
     N = len(pool)
     # ---- pairs: implementation ==, hash; reference; model
@@ -238,6 +239,32 @@ def run(ctx):
             if got != want:
                 ctx.violation("oracle", f"`{src}` with a={proto.show(pool[i])}, b={proto.show(pool[j])} gives {got}, expected {want}",
                               {"op": "program", "src": src, "a": proto.to_sx(pool[i]), "b": proto.to_sx(pool[j])})
+    # ---- ... and on UNEQUAL values: the operators, membership, lookup and de-duplication all say "different";
+    # numbers that differ only far behind the point (or beyond 2^53) are the interesting ones
+    near = [(('d', 0.1 + 0.2), ('d', 0.3)), (('d', 1.0), ('d', 1.0000000000008)), (('i', 2 ** 53 + 1), ('d', float(2 ** 53))),
+            (('d', 1e20), ('i', 10 ** 20 + 1)), (('d', 1e-300), ('d', 0.0)), (('i', 10 ** 30), ('d', 1e30)), (('d', 123456789.12345679), ('d', 123456789.12345678)),
+            (('l', (('d', 0.1 + 0.2),)), ('l', (('d', 0.3),))), (('i', 3), ('d', 3.0000000000000004)), (('d', -2.5), ('d', -2.5000000000000004))]
+    neq = [(pool[i], pool[j]) for i, j in [(rng.randrange(N), rng.randrange(N)) for _ in range(4000 if ctx.thorough else 600)] if not impl_eq[i][j]]
+    neq = [(a, b) for a, b in neq if not ref_eq(a, b)][: (2000 if ctx.thorough else 300)]
+    for a, b in near + [(y, x) for x, y in near] + neq:
+        if ref_eq(a, b):
+            continue
+        env = it.environment
+        env.put("a", proto.to_ckl(a))
+        env.put("b", proto.to_ckl(b))
+        ctx.seen(("neq-programs", proto.canon(a), proto.canon(b)), nontrivial=True)
+        for src, want in [("a == b", "FALSE"), ("a != b", "TRUE"), ("a is b", "FALSE"), ("equals(a, b)", "FALSE"), ("not_equals(a, b)", "TRUE"), ("b in <<a>>", "FALSE"),
+                          ("a in [b]", "FALSE"), ("length(<<a, b>>)", "2"), ("[a] == [b]", "FALSE"), ("<<a>> == <<b>>", "FALSE"),
+                          ("def m1_ = <<<>>>; m1_[a] = 1; b in m1_", "FALSE"), ("(a == b) == (b == a)", "TRUE"), ("find([a], b)", "-1")]:
+            try:
+                with core.time_limit(5):
+                    got = str(it.interpret(src, "c06"))
+            except (Exception, core.Timeout) as e:   # noqa
+                got = "EXC " + type(e).__name__ + ": " + str(e)[:80]
+            progs += 1
+            if got != want:
+                ctx.violation("oracle", f"`{src}` with the different values a={proto.show(a)}, b={proto.show(b)} gives {got}, expected {want}",
+                              {"op": "program", "src": src, "a": proto.to_sx(a), "b": proto.to_sx(b)})
     ctx.count("programs", progs)
     ctx.sample({"pair": [proto.show(pool[1]), proto.show(pool[2])], "equal": impl_eq[1][2]})
     for (i, j) in eq_pairs[:6]:
